@@ -55,7 +55,12 @@ impl<T: CellType> Range<T> {
         self.start.0 <= self.end.0 && self.start.1 <= self.end.1 && self.h() <= u32::MAX && self.w() <= u32::MAX
     }
     pub closed spec fn wf(&self) -> bool {
-        self.inner@.len() == 0 || (self.spans_ok() && self.inner@.len() == self.h() * self.w())
+        self.spans_ok() && (self.inner@.len() == 0 || self.inner@.len() == self.h() * self.w())
+    }
+    proof fn lemma_len_bound(&self)
+        ensures self.inner@.len() <= usize::MAX,
+    {
+        assert(self.inner@.len() == self.inner.len());
     }
     pub closed spec fn nonempty(&self) -> bool { self.inner@.len() > 0 }
     pub closed spec fn lo(&self) -> (u32, u32) { self.start }
@@ -120,6 +125,17 @@ proof fn lemma_idx_inj(i: int, j: int, i2: int, j2: int, w: int)
     }
 }
 
+/// relative cell (i, j) of a w-wide row-major buffer
+pub open spec fn ix(i: int, j: int, w: int) -> int { i * w + j }
+
+proof fn lemma_mul_u32(a: int, b: int)
+    requires 0 <= a <= 0xffff_ffff, 0 <= b <= 0xffff_ffff,
+    ensures 0 <= a * b <= 0xffff_ffff * 0xffff_ffff, a * b <= usize::MAX,
+{
+    assert(a * b <= 0xffff_ffff * 0xffff_ffff) by (nonlinear_arith) requires 0 <= a <= 0xffff_ffff, 0 <= b <= 0xffff_ffff;
+    assert(0 <= a * b) by (nonlinear_arith) requires 0 <= a, 0 <= b;
+}
+
 proof fn lemma_idx(i: int, j: int, h: int, w: int)
     requires 0 <= i < h, 0 <= j < w,
     ensures 0 <= i * w + j < h * w, i * w + j <= (h - 1) * w + (w - 1),
@@ -175,21 +191,21 @@ proof fn lemma_idx(i: int, j: int, h: int, w: int)
 //@@ end
 //@@ fn src/lib.rs Range::width props=C05 ret=r
 //@@ sig
-    requires self.nonempty() ==> self.spans_ok(),
+    requires self.spans_ok(),
     ensures
         //# C05.width
         r == self.sw(),
 //@@ end
 //@@ fn src/lib.rs Range::height props=C05 ret=r
 //@@ sig
-    requires self.nonempty() ==> self.spans_ok(),
+    requires self.spans_ok(),
     ensures
         //# C05.height
         r == self.sh(),
 //@@ end
 //@@ fn src/lib.rs Range::get_size props=C05 ret=r
 //@@ sig
-    requires self.nonempty() ==> self.spans_ok(),
+    requires self.spans_ok(),
     ensures
         //# C05.get_size
         r.0 == self.sh() && r.1 == self.sw(),
@@ -236,6 +252,160 @@ proof fn lemma_idx(i: int, j: int, h: int, w: int)
         !old(self).nonempty() ==> final(self).wf() && final(self).nonempty()
             && final(self).lo() == absolute_position && final(self).hi() == absolute_position
             && final(self).at(absolute_position.0 as int, absolute_position.1 as int) == value,
+//@@ body
+        let ghost o = *old(self);
+        let ghost ne = old(self).nonempty();
+        let ghost p0 = absolute_position.0 as int;
+        let ghost p1 = absolute_position.1 as int;
+        let ghost s0 = o.start.0 as int;
+        let ghost s1 = o.start.1 as int;
+        let ghost h0 = o.h();
+        let ghost w0 = o.w();
+        let ghost h1: int = if p0 > o.end.0 { p0 - s0 + 1 } else { h0 };
+        let ghost w1: int = if p1 > o.end.1 { p1 - s1 + 1 } else { w0 };
+        let ghost mut k: int = 0;
+        proof {
+            o.lemma_len_bound();
+            lemma_mul_u32(h0, w0); lemma_mul_u32(h1, w1); lemma_mul_u32(h1, w0); lemma_mul_u32(h0, w1);
+        }
+//@@ before /let len = \(absolute_position/
+                proof { lemma_mul_u32(p0 - self.end.0 + 1, self.sw()); lemma_mul_u32(p0 - self.end.0, self.sw()); }
+//@@ after /self\.end\.0 = absolute_position\.0;/
+                proof { if ne {
+                    let d = p0 - o.end.0;
+                    // (hints do not presuppose how many rows the code appends: d * w0 is what the rectangle needs)
+                    assert((h0 + d) * w0 == h0 * w0 + d * w0) by (nonlinear_arith);
+                    assert((d + 1) * w0 == d * w0 + w0) by (nonlinear_arith);
+                    assert(h1 == h0 + d);
+                    assert forall|i: int, j: int| 0 <= i < h1 && 0 <= j < w1 implies
+                        0 <= #[trigger] ix(i, j, w1) < h1 * w1
+                        && (lawful::<T>() ==> self.inner@[ix(i, j, w1)] == (if i < h0 && j < w0 { o.inner@[ix(i, j, w0)] } else { dflt::<T>() }))
+                    by {
+                        lemma_idx(i, j, h1, w1);
+                        if i < h0 { lemma_idx(i, j, h0, w0); } else {
+                            assert(i * w0 >= h0 * w0) by (nonlinear_arith) requires i >= h0, w0 >= 0;
+                        }
+                    }
+                } }
+//@@ before /let mut data = /
+                proof { if ne {
+                    assert(height == h1 && width == w1 && old_width == w0);
+                }
+                lemma_mul_u32(width as int, height as int);
+                }
+//@@ before /for sce in /
+                proof {
+                    assert(self.inner@.skip(0) =~= self.inner@);
+                    if ne { assert(h0 * w0 >= 1) by (nonlinear_arith) requires h0 >= 1, w0 >= 1; }
+                }
+//@@ r6 0
+//@@ loop 0
+                    invariant
+                        *self == o, ne == o.nonempty(), o.wf(), h0 == o.h(), w0 == o.w(), old_width == o.sw(),
+                        ne ==> width == w1 && w1 > w0, w1 <= 0xffff_ffff, h0 <= 0xffff_ffff,
+                        empty@.len() == width - old_width,
+                        lawful::<T>() ==> forall|x: int| 0 <= x < empty@.len() ==> empty@[x] == dflt::<T>(),
+                        !ne ==> chunks_rem(__it0).len() == 0,
+                        ne ==> chunks_size(__it0) == w0 && 0 <= k <= h0 && k * w0 <= h0 * w0 && chunks_rem(__it0) == o.inner@.skip(k * w0)
+                            && data@.len() == k * w1 && (k < h0 ==> chunks_rem(__it0).len() > 0),
+                        ne && lawful::<T>() ==> forall|i: int, j: int| 0 <= i < k && 0 <= j < w1 ==>
+                            data@[#[trigger] ix(i, j, w1)] == (if j < w0 { o.inner@[ix(i, j, w0)] } else { dflt::<T>() }),
+                    ensures ne ==> k == h0,
+                    decreases chunks_rem(__it0).len(),
+//@@ before /data\.extend_from_slice\(sce\);/
+                    let ghost d0 = data@;
+                    proof { if ne {
+                        let rem = o.inner@.skip(k * w0);
+                        assert(rem.len() == h0 * w0 - k * w0);
+                        assert(h0 * w0 - k * w0 == (h0 - k) * w0) by (nonlinear_arith);
+                        if k >= h0 { assert((h0 - k) * w0 <= 0) by (nonlinear_arith) requires h0 - k <= 0, w0 >= 0; }
+                        assert(k < h0);
+                        assert((h0 - k) * w0 >= w0) by (nonlinear_arith) requires h0 - k >= 1, w0 >= 0;
+                        assert(sce@ == rem.take(w0));
+                        assert((k + 1) * w0 == k * w0 + w0) by (nonlinear_arith);
+                        assert((k + 1) * w1 == k * w1 + w1) by (nonlinear_arith);
+                        assert((k + 1) * w0 <= h0 * w0) by (nonlinear_arith) requires k + 1 <= h0, w0 >= 0;
+                        assert(rem.skip(w0) =~= o.inner@.skip((k + 1) * w0));
+                        lemma_mul_u32(k + 1, w1);
+                    } }
+//@@ after /data\.extend_from_slice\(&empty\);/
+                    proof { if ne {
+                        assert(data@.len() == (k + 1) * w1);
+                        if lawful::<T>() {
+                            assert forall|i: int, j: int| 0 <= i < k + 1 && 0 <= j < w1 implies
+                                data@[#[trigger] ix(i, j, w1)] == (if j < w0 { o.inner@[ix(i, j, w0)] } else { dflt::<T>() })
+                            by {
+                                if i < k {
+                                    lemma_idx(i, j, k, w1);
+                                    assert(data@[ix(i, j, w1)] == d0[ix(i, j, w1)]);
+                                } else {
+                                    assert(ix(i, j, w1) == k * w1 + j);
+                                    if j < w0 {
+                                        assert(cloned(sce@[j], data@[d0.len() + j]));
+                                        assert(sce@[j] == o.inner@[k * w0 + j]);
+                                    } else {
+                                        assert(cloned(empty@[j - w0], data@[d0.len() + w0 + (j - w0)]));
+                                    }
+                                }
+                            }
+                        }
+                        if k + 1 < h0 {
+                            assert(h0 * w0 - (k + 1) * w0 == (h0 - (k + 1)) * w0) by (nonlinear_arith);
+                            assert((h0 - (k + 1)) * w0 >= 1) by (nonlinear_arith) requires h0 - (k + 1) >= 1, w0 >= 1;
+                        }
+                        k = k + 1;
+                    } }
+//@@ before /data\.extend_from_slice\(&vec!\[T::default\(\); width \* /
+                let ghost d1 = data@;
+                proof { if ne {
+                    // the chunk cursor is exhausted: all h0 rows were copied
+                    assert(k == h0);
+                    lemma_mul_u32(w1, h1 - h0);
+                    assert(h0 * w1 + w1 * (h1 - h0) == h1 * w1) by (nonlinear_arith);
+                } }
+//@@ before /self\.inner = data;/
+                proof { if ne && lawful::<T>() {
+                    assert forall|i: int, j: int| 0 <= i < h1 && 0 <= j < w1 implies
+                        data@[#[trigger] ix(i, j, w1)] == (if i < h0 && j < w0 { o.inner@[ix(i, j, w0)] } else { dflt::<T>() })
+                    by {
+                        lemma_idx(i, j, h1, w1);
+                        if i < h0 {
+                            lemma_idx(i, j, h0, w1);
+                            assert(data@[ix(i, j, w1)] == d1[ix(i, j, w1)]);
+                        } else {
+                            assert(i * w1 >= h0 * w1) by (nonlinear_arith) requires i >= h0, w1 >= 0;
+                        }
+                    }
+                } }
+//@@ before /let pos = \(/
+        proof { if ne {
+            assert(self.start == o.start);
+            assert(self.h() == h1 && self.w() == w1);
+            assert(self.inner@.len() >= h1 * w1);
+            assert(lawful::<T>() ==> forall|i: int, j: int| 0 <= i < h1 && 0 <= j < w1 ==>
+                self.inner@[#[trigger] ix(i, j, w1)] == (if i < h0 && j < w0 { o.inner@[ix(i, j, w0)] } else { dflt::<T>() }));
+            lemma_idx(p0 - s0, p1 - s1, h1, w1);
+        }
+        lemma_mul_u32(p0 - s0, self.sw());
+        }
+        let ghost m = *self;
+//@@ before /self\.inner\[idx\] = value;/
+        proof { if ne { assert(idx == ix(p0 - s0, p1 - s1, w1)); } }
+//@@ after /self\.inner\[idx\] = value;/
+        proof { if ne {
+            assert(self.inner@ == m.inner@.update(idx as int, value));
+            if lawful::<T>() {
+                assert forall|i: int, j: int| self.has(i, j) && !(i == p0 && j == p1) implies
+                    self.at(i, j) == (if o.has(i, j) { o.at(i, j) } else { dflt::<T>() })
+                by {
+                    lemma_idx(i - s0, j - s1, h1, w1);
+                    assert(self.at(i, j) == self.inner@[ix(i - s0, j - s1, w1)]);
+                    if ix(i - s0, j - s1, w1) == idx as int { lemma_idx_inj(i - s0, j - s1, p0 - s0, p1 - s1, w1); }
+                    assert(o.has(i, j) <==> (i - s0 < h0 && j - s1 < w0));
+                    if o.has(i, j) { assert(o.at(i, j) == o.inner@[ix(i - s0, j - s1, w0)]); }
+                }
+            }
+        } }
 //@@ end
 //@@ fn src/lib.rs Range::get_value props=C05 ret=r
 //@@ sig
